@@ -219,7 +219,7 @@ func c09(c *Ctx) {
 			_ = adds
 		}
 	}
-	// c09R7(c, "R7") // armed only once the finding is reproduced deterministically
+	c09R7(c, "R7")
 	// R4
 	sNotify(c, "R4")
 	sMatch(c, "R4/S-MATCH")
